@@ -310,3 +310,41 @@ def attach_module_step(H, case):
         H.check("appended_when_no_empty_position", SymBool(z3.Implies(z3.Not(has_hole), z3.And(iz == n0, n1 == n0 + 1))))
     H.check("module_occupies_exactly_one_position", SymBool(z3.ForAll([q], z3.Implies(z3.And(0 <= q, q < n1, items1[q] == mref), q == iz))))
     H.cover("reached")
+
+
+@contract("attach_pattern_step", ["C14"], cases=lambda tier: [(k, k) for k in ("fresh", "empty", "owned_elsewhere", "owned_here")], replayable=False,
+          targets=["rv.project:Project.attach_pattern"])
+def attach_pattern_step(H, case):
+    """Project.attach_pattern on a pattern list of ANY length: a free pattern (or None) is appended at
+    the end, its position is returned, every earlier position is unchanged and the pattern's owner is
+    the project; a pattern that already has an owner (this or another project) is refused with
+    PatternOwnershipError and nothing changes."""
+    c = H.pctx
+    rh = RefHeap("pats")
+    p = Project()
+    other = Project()
+    pat = Pattern(lines=1, tracks=1)
+    pref = rh.register(pat, "pat")
+    items0, n0 = rh.items(), rh.length()
+    c.add(n0 >= 0)
+    p.patterns = rh.view()
+    old = rh.snapshot()
+    q = z3.Int("q")
+    if case in ("owned_elsewhere", "owned_here"):
+        pat.project = other if case == "owned_elsewhere" else p
+        exc, _ = H.raises(p.attach_pattern, pat)
+        H.check("owned_pattern_refused", isinstance(exc, PatternOwnershipError))
+        H.check("refusal_changes_nothing", rh.tab["items"] is old.tab["items"] and rh.len["items"] is old.len["items"]
+                and pat.project is (other if case == "owned_elsewhere" else p))
+        return
+    x = pat if case == "fresh" else None
+    exc, pos = H.raises(p.attach_pattern, x)
+    H.check("does_not_raise", exc is None)
+    from rvproof.sym import as_int_z
+
+    H.check("returns_position_at_the_end", SymBool(as_int_z(pos) == n0))
+    H.check("appended", SymBool(z3.And(rh.length() == n0 + 1, rh.items()[n0] == (pref if case == "fresh" else 0))))
+    H.check("earlier_positions_unchanged", SymBool(z3.ForAll([q], z3.Implies(z3.And(0 <= q, q < n0), rh.items()[q] == items0[q]))))
+    if case == "fresh":
+        H.check("owner_set", pat.project is p)
+    H.cover("reached")
